@@ -48,33 +48,62 @@ func (l *vhPlainLoader) Exists(name string) bool { return l.has[name] }
 
 // model of what the engine must remember per name
 type vhC15Entry struct {
-	present  bool
-	out      string // what it renders
-	from     int    // -1 registered, 0 ts loader, 1 plain loader
-	mtime    int64
+	present bool
+	out     string // what it renders
+	from    int    // -1 registered, else index of the loader it came from
+	mtime   int64
 }
 
-// VH_C15_Cache: two loaders (first: timestamp-aware, second: plain), two names, a history of H
-// operations, every flag / has-it bit / timestamp symbolic.
+// a loader that is timestamp-aware or not, decided per instance
+type vhC15Loader interface {
+	Loader
+	hasName(n string) bool
+	version(n string) int
+	reads(n string) int
+	stamp(n string) (int64, bool) // modification time, and whether the loader is timestamp-aware
+}
+
+func (l *vhTSLoader) hasName(n string) bool        { return l.has[n] }
+func (l *vhTSLoader) version(n string) int         { return l.ver[n] }
+func (l *vhTSLoader) reads(n string) int           { return l.loads[n] }
+func (l *vhTSLoader) stamp(n string) (int64, bool) { return l.mtime[n], true }
+func (l *vhPlainLoader) hasName(n string) bool     { return l.has[n] }
+func (l *vhPlainLoader) version(n string) int      { return l.ver[n] }
+func (l *vhPlainLoader) reads(n string) int        { return l.loads[n] }
+func (l *vhPlainLoader) stamp(n string) (int64, bool) { return 0, false }
+
+// VH_C15_Cache: two loaders (the first timestamp-aware, the second timestamp-aware or plain), two names,
+// a history of H operations, every flag / has-it bit / timestamp symbolic.
 func VH_C15_Cache() {
 	h := symParam("H", 2)
 	names := []string{"a", "b"}
-	ts := &vhTSLoader{has: map[string]bool{}, ver: map[string]int{}, mtime: map[string]int64{}, loads: map[string]int{}}
-	pl := &vhPlainLoader{has: map[string]bool{}, ver: map[string]int{}, loads: map[string]int{}}
+	l0 := &vhTSLoader{has: map[string]bool{}, ver: map[string]int{}, mtime: map[string]int64{}, loads: map[string]int{}}
+	l1ts := &vhTSLoader{has: map[string]bool{}, ver: map[string]int{}, mtime: map[string]int64{}, loads: map[string]int{}}
+	l1pl := &vhPlainLoader{has: map[string]bool{}, ver: map[string]int{}, loads: map[string]int{}}
+	secondTS := symBool()
 	for _, n := range names {
-		ts.has[n], pl.has[n] = symBool(), symBool()
-		ts.ver[n], pl.ver[n] = 0, 1
-		ts.mtime[n] = int64(symInt())
+		l0.has[n] = symBool()
+		h1 := symBool()
+		l1ts.has[n], l1pl.has[n] = h1, h1
+		l0.ver[n], l1ts.ver[n], l1pl.ver[n] = 0, 1, 1
+		l0.mtime[n] = int64(symInt())
+		l1ts.mtime[n] = int64(symInt())
+	}
+	var loaders []vhC15Loader
+	if secondTS {
+		loaders = []vhC15Loader{l0, l1ts}
+	} else {
+		loaders = []vhC15Loader{l0, l1pl}
 	}
 	e := New()
-	e.RegisterLoader(ts)
-	e.RegisterLoader(pl)
+	e.RegisterLoader(loaders[0])
+	e.RegisterLoader(loaders[1])
 	cache, auto := true, false // engine defaults
 	model := map[string]*vhC15Entry{"a": {}, "b": {}}
 	tag := ""
 	for step := 0; step < h; step++ {
-		op := symChoice(7)
-		n := names[symChoice(2)]
+		op := symChoice(9)
+		n := names[symChoice(symParam("NAMES", 1))] // names touched by history operations
 		switch op {
 		case 0:
 			cache = symBool()
@@ -91,38 +120,46 @@ func VH_C15_Cache() {
 				return
 			}
 			*model[n] = vhC15Entry{present: true, out: n + "3", from: -1}
-		case 3: // content of the timestamp loader changes (mtime strictly increases) or appears
+		case 3: // content of the first loader changes (mtime strictly increases) or appears
 			tag += "U"
 			m2 := int64(symInt())
-			symAssume(m2 > ts.mtime[n])
-			ts.mtime[n] = m2
-			ts.has[n] = true
-			ts.ver[n] = 2
-		case 4: // the timestamp loader is touched without... no: unchanged content keeps its mtime; nothing to do
+			symAssume(m2 > l0.mtime[n])
+			l0.mtime[n], l0.has[n], l0.ver[n] = m2, true, 2
+		case 4: // content of the second loader changes
+			tag += "V"
+			if secondTS {
+				m2 := int64(symInt())
+				symAssume(m2 > l1ts.mtime[n])
+				l1ts.mtime[n], l1ts.has[n], l1ts.ver[n] = m2, true, 2
+			} else {
+				l1pl.ver[n], l1pl.has[n] = 2, true
+			}
+		case 5: // the first loader loses the name
+			tag += "x"
+			l0.has[n] = false
+		case 6: // the second loader loses the name
+			tag += "y"
+			l1ts.has[n], l1pl.has[n] = false, false
+		case 7:
 			tag += "-"
-		case 5: // the plain loader's content changes
-			tag += "P"
-			pl.ver[n] = 2
-			pl.has[n] = true
-		case 6: // render and check
+		case 8: // render and check
 			tag += "r"
-			vhC15Render(e, n, ts, pl, model, cache, auto)
+			vhC15Render(e, n, loaders, model, cache, auto)
 		}
 	}
 	symTag("hist:" + tag)
-	// final render of both names
 	for _, n := range names {
-		vhC15Render(e, n, ts, pl, model, cache, auto)
+		vhC15Render(e, n, loaders, model, cache, auto)
 	}
 	symCover("done")
 }
 
-func vhC15Render(e *Engine, n string, ts *vhTSLoader, pl *vhPlainLoader, model map[string]*vhC15Entry, cache, auto bool) {
+func vhC15Render(e *Engine, n string, loaders []vhC15Loader, model map[string]*vhC15Entry, cache, auto bool) {
 	m := model[n]
-	lt, lp := ts.loads[n], pl.loads[n]
+	before := []int{loaders[0].reads(n), loaders[1].reads(n)}
 	out, err := e.Render(n, nil)
-	rt, rp := ts.loads[n]-lt, pl.loads[n]-lp
-	// what must be served
+	r0, r1 := loaders[0].reads(n)-before[0], loaders[1].reads(n)-before[1]
+	// must the remembered source be served?
 	useCached := false
 	if m.present {
 		switch {
@@ -132,41 +169,45 @@ func vhC15Render(e *Engine, n string, ts *vhTSLoader, pl *vhPlainLoader, model m
 			useCached = false
 		case !auto:
 			useCached = true
-		case m.from == 0: // timestamp-aware: re-read iff changed since it was cached
-			useCached = !(ts.has[n] && ts.mtime[n] > m.mtime) && ts.has[n]
 		default:
-			useCached = true // no way to notice a change
+			// auto-reload: re-read iff the loader it came from is timestamp-aware and reports a change
+			src := loaders[m.from]
+			mt, aware := src.stamp(n)
+			if !aware {
+				useCached = true
+			} else {
+				useCached = src.hasName(n) && !(mt > m.mtime)
+			}
 		}
 	}
 	if useCached {
 		symCover("served-from-cache")
 		symAssert(err == nil && out == m.out, "serves-remembered-source")
-		symAssert(rt == 0 && rp == 0, "unchanged-template-not-reread")
+		symAssert(r0 == 0 && r1 == 0, "unchanged-template-not-reread")
 		return
 	}
 	// loaders are consulted in registration order; the first that has the name wins
 	switch {
-	case ts.has[n]:
+	case loaders[0].hasName(n):
 		symCover("loaded-from-first")
-		symAssert(err == nil && out == vhC15Src(n, ts.ver[n]), "first-loader-wins-current-source")
-		symAssert(rt == 1 && rp == 0, "loader-read-once-in-order")
+		symAssert(err == nil && out == vhC15Src(n, loaders[0].version(n)), "first-loader-wins-current-source")
+		symAssert(r0 == 1 && r1 == 0, "loader-read-once-in-order")
 		if cache {
-			*m = vhC15Entry{present: true, out: out, from: 0, mtime: ts.mtime[n]}
+			mt, _ := loaders[0].stamp(n)
+			*m = vhC15Entry{present: true, out: out, from: 0, mtime: mt}
 		}
-	case pl.has[n]:
+	case loaders[1].hasName(n):
 		symCover("loaded-from-second")
-		symAssert(err == nil && out == vhC15Src(n, pl.ver[n]), "second-loader-serves-current-source")
-		symAssert(rt == 1 && rp == 1, "loaders-read-in-order")
+		symAssert(err == nil && out == vhC15Src(n, loaders[1].version(n)), "second-loader-serves-current-source")
+		symAssert(r0 == 1 && r1 == 1, "loaders-read-in-order")
 		if cache {
-			*m = vhC15Entry{present: true, out: out, from: 1}
+			mt, _ := loaders[1].stamp(n)
+			*m = vhC15Entry{present: true, out: out, from: 1, mtime: mt}
 		}
 	default:
 		symCover("not-found")
 		symAssert(err != nil && errors.Is(err, ErrTemplateNotFound), "missing-name-matches-ErrTemplateNotFound")
 		symAssert(out == "", "no-output")
-		if cache && m.present {
-			// a previously cached entry whose reload found nothing: the property does not say; leave the model as is
-			m.present = false
-		}
+		// "a name no loader has ... changes nothing in the cache": a previously cached entry stays as it was
 	}
 }
